@@ -21,6 +21,8 @@ def _gen_one(args):
         return None
     try:
         ref = progen.interpret(prog, max_steps)
+    except progen.TooBig:
+        return None
     except (progen.Unsupported, RecursionError):
         return (prog, src, None)
     return (prog, src, ref)
